@@ -48,7 +48,37 @@ fn finalize(_t: Tier, _p: &Plan, rep: &mut Report) {
 	}
 }
 
-fn debug_fields(c: &LimitedCache<u64, u64>) -> Option<(usize, usize)> {
+/// The cache under test, keyed by a type whose `Hash` is coarser than its `Eq` (the hash sees only `key % 7`,
+/// which the Hash / Eq contract allows): keys that differ must stay different entries whatever their hashes.
+#[derive(Clone, Copy, PartialEq, Eq)]
+struct CoarseKey(u64);
+impl std::hash::Hash for CoarseKey {
+	fn hash<H: std::hash::Hasher>(&self, h: &mut H) {
+		(self.0 % 7).hash(h)
+	}
+}
+struct Cache(LimitedCache<CoarseKey, u64>);
+impl Cache {
+	fn with_maximum_size(size: usize) -> Cache {
+		Cache(LimitedCache::with_maximum_size(size))
+	}
+	fn get(&mut self, k: &u64) -> Option<u64> {
+		self.0.get(&CoarseKey(*k))
+	}
+	fn add(&mut self, k: u64, v: u64) -> u64 {
+		self.0.add(CoarseKey(k), v)
+	}
+	fn get_or_set<F: FnOnce() -> anyhow::Result<u64>>(&mut self, k: &u64, f: F) -> anyhow::Result<u64> {
+		self.0.get_or_set(&CoarseKey(*k), f)
+	}
+}
+impl std::fmt::Debug for Cache {
+	fn fmt(&self, f: &mut std::fmt::Formatter<'_>) -> std::fmt::Result {
+		self.0.fmt(f)
+	}
+}
+
+fn debug_fields(c: &Cache) -> Option<(usize, usize)> {
 	// "LimitedCache { length: 3, max_length: 4, last_index: 17 }"
 	let s = format!("{c:?}");
 	let grab = |key: &str| -> Option<usize> {
@@ -75,8 +105,8 @@ enum Op {
 const PURE_STEPS: usize = 12_000;
 const MAX_TWINS: usize = 500;
 
-fn twin(size: usize, ops: &[(Op, u64)]) -> LimitedCache<u64, u64> {
-	let mut c: LimitedCache<u64, u64> = LimitedCache::with_maximum_size(size);
+fn twin(size: usize, ops: &[(Op, u64)]) -> Cache {
+	let mut c: Cache = Cache::with_maximum_size(size);
 	for (op, v) in ops {
 		match op {
 			Op::Add(k) => {
@@ -101,7 +131,7 @@ fn twin(size: usize, ops: &[(Op, u64)]) -> LimitedCache<u64, u64> {
 fn long_clock_case(cx: &CaseCtx, rep: &mut Report) {
 	cx.progress("access clock beyond 2^32");
 	let r = guard::catch_strict_thread(|| {
-		let mut cache: LimitedCache<u64, u64> = LimitedCache::with_maximum_size(16 * 3);
+		let mut cache: Cache = Cache::with_maximum_size(16 * 3);
 		cache.add(1, 100);
 		cache.add(2, 200);
 		let mut n = 0u64;
@@ -169,7 +199,7 @@ fn run_case(cx: &CaseCtx, rep: &mut Report) {
 	let r = guard::catch_strict_thread(|| {
 		let slack = rng.below(16) as usize; // maximum_size need not be a multiple of the element size
 		let size = 16 * cap as usize + slack;
-		let mut cache: LimitedCache<u64, u64> = LimitedCache::with_maximum_size(size);
+		let mut cache: Cache = Cache::with_maximum_size(size);
 		let mut pure_ops: Vec<(Op, u64)> = Vec::new();
 		let mut twins = 0usize;
 		let mut ever: HashMap<u64, HashSet<u64>> = HashMap::new();
